@@ -206,14 +206,16 @@ func HandleBulkBody(postBody []byte, ctx *fasthttp.RequestCtx, rid uint64, myid 
 					if err != nil {
 						success = false
 					}
-					if useIngestHook {
-						if hook := hooks.GlobalHooks.EsBulkIngestInternalHook; hook != nil {
-							err = hook(ctx, request, indexNameConverted, false, idVal, tsNow, myid)
-							if err != nil {
-								log.Errorf("HandleBulkBody: failed to call EsBulkIngestInternalHook, err=%v", err)
-								success = false
-							}
+					if hook := hooks.GlobalHooks.EsBulkIngestInternalHook; useIngestHook && hook != nil {
+						err = hook(ctx, request, indexNameConverted, false, idVal, tsNow, myid)
+						if err != nil {
+							log.Errorf("HandleBulkBody: failed to call EsBulkIngestInternalHook, err=%v", err)
+							success = false
 						}
+					} else {
+						// nothing stores a .kibana document here: as in the single document API, Kibana is not supported
+						log.Errorf("HandleBulkBody: Kibana is not supported, indexName=%v", indexName)
+						success = false
 					}
 				} else {
 					ple, err := writer.GetNewPLE(line, tsNow, indexName, &tsKey, jsParsingStackbuf[:])
